@@ -21,7 +21,8 @@ META = {
         'the version.  (D3) gate agreement: every gate has the form norm(version) < VER_3_0 => refuse with the same '
         'normaliser (Version.nearest), operator and constant.  (D4) detect-or-validate logic: raise iff a version was '
         'given, otherwise upgrade.  Not decided: sequences of mutations as executions (covered inductively by D2+D4).'
-        ' Also (D2): a derived grid whose rows are stored without validation (result._row = ...) is created with self.version / self._version.'),
+        ' Also (D2): a derived grid whose rows are stored without validation (result._row = ...) is created with self.version / self._version.'
+        ' Also (D1): no earlier branch of the JSON reader returns a list/dict (the empty ones included) before its version gate.  (D2) an own Grid.extend walks its argument once.'),
     'rule_text': 'obligations = 5 kinds x 5 sites, entry paths, gate comparisons, logic facts',
     'trusted_base': ['MutableMapping.update/setdefault reduce to __setitem__; MutableSequence.append/extend/+= reduce to insert'],
 }
@@ -164,6 +165,29 @@ def _json_reader(ctx, m, gates):
             ctx.error('C10.D1', 'jsonparser: no decode branch for %s' % kind)
             continue
         t, body, node = hit[0]
+        # no earlier branch hands a value of this kind back before it reaches its gate (decision table of the earlier
+        # tests over representatives of the kind, the empty container included)
+        reps = {'list': ([], ['n:1']), 'dict': ({}, {'a': 'n:1'}), 'NA': ('z:',), 'XStr': ('x:hex:00',)}[kind]
+        from .. import minieval
+        for t0, b0, n0 in branches:
+            if n0 is node or n0._seq > node._seq or getattr(n0, '_parent', None) is not fn:
+                continue
+            if not any(isinstance(x, ast.Return) for x in b0):
+                continue
+            for rep in reps:
+                try:
+                    taken = bool(minieval.ev(n0.test, {p: rep}))
+                except minieval.Undecided:
+                    taken = False
+                if taken:
+                    ctx.violation('C10.D1', '%s::parse_embedded_scalar' % F, 'if %s:' % t0,
+                                  'hszinc.parse_scalar(%r, mode=MODE_JSON, version="2.0") returns the value instead of raising '
+                                  'ValueError: the earlier branch `if %s` takes a %s (here %r) and returns before the version gate '
+                                  'of the %s branch is reached -- the ZINC reader, Grid and the writers refuse the same value' %
+                                  (rep, t0, kind, rep, kind),
+                                  'an earlier branch of the JSON reader returns for a %s value before its version gate' % kind,
+                                  file=F, line=n0.lineno, engine='E1')
+                    break
         g = _gate(body)
         if g is None:
             spelling = {'list': '["n:1"]', 'dict': '{"a":"n:1"}', 'NA': '"z:"', 'XStr': '"x:hex:00"'}[kind]
@@ -367,6 +391,14 @@ def _zinc_reader(ctx, m):
             ctx.error('C10.D3', 'NearestMatch.__getitem__: %d fallback lookups in _known_grammars; cannot decide' % len(keys))
         else:
             src = _zinc.resolve_local(nm, norm(keys[0].slice), params=(vparam,))
+            if src.isidentifier() and src != vparam:
+                # assigned on several paths (an if/else pair): the key is whatever those paths assign
+                defs = [norm(st.value) for st in ast.walk(nm) if isinstance(st, ast.Assign) and len(st.targets) == 1
+                        and isinstance(st.targets[0], ast.Name) and st.targets[0].id == src]
+                if defs and all(d == 'Version.nearest(%s)' % vparam for d in defs):
+                    src = defs[0]
+                elif defs and not any('nearest' in d for d in defs):
+                    src = ' | '.join(defs)
             if src == 'Version.nearest(%s)' % vparam:
                 ctx.ob('C10.D3', 'the ZINC grammar is selected by Version.nearest(version)', True, '%s:%d' % (F, nm.lineno))
             elif 'nearest' in src:
